@@ -397,9 +397,9 @@ func execConv(a []string) (string, string) {
 		}
 		if linOK && !math.IsNaN(linF) && !math.IsInf(linF, 0) {
 			q := new(big.Rat).SetFloat64(linF)
-			valS += fmt.Sprintf(" lin=%s/%s", q.Num().String(), q.Denom().String())
+			valS += fmt.Sprintf(" ~lin=%s/%s", q.Num().String(), q.Denom().String())
 		} else {
-			valS += " lin=?"
+			valS += " ~lin=?"
 		}
 	case errors.Is(rerr, bmc.ErrSensorReadingUnavailable):
 		valS = "err-unavailable"
